@@ -40,7 +40,7 @@ fn err_class(e: &anyhow::Error) -> String {
         Some(CKKSCompositionError::MissingAutomorphismKey { .. }) => "err:MissingAutomorphismKey".into(),
         Some(CKKSCompositionError::PlaintextAlignmentImpossible { .. }) => "err:PlaintextAlignmentImpossible".into(),
         Some(CKKSCompositionError::MultiplicationPrecisionUnderflow { .. }) => "err:MultiplicationPrecisionUnderflow".into(),
-        None => format!("err:other:{}", e.to_string().chars().take(80).collect::<String>()),
+        None => { let _ = e; "err:other".to_string() }
     }
 }
 
@@ -232,6 +232,26 @@ macro_rules! ckks_backend {
                                     let sgn = if op == "mul_add_ct" { 1.0 } else { -1.0 };
                                     newref = match (fd.as_ref(), prod.as_ref()) { (Some(dv), Some(pv)) => Some(((0..dv.0.len()).map(|i| dv.0[i] + sgn * pv.0[i]).collect(), (0..dv.0.len()).map(|i| dv.1[i] + sgn * pv.1[i]).collect())), _ => None };
                                     if op == "mul_add_ct" { into!(|dst: &mut CKKSCiphertext<Vec<u8>>| m.ckks_mul_add_ct_into(dst, x, y.unwrap(), &tskp, sref)) } else { into!(|dst: &mut CKKSCiphertext<Vec<u8>>| m.ckks_mul_sub_ct_into(dst, x, y.unwrap(), &tskp, sref)) }
+                                }
+                                "dot_ct" | "mul_many" => {
+                                    let cmul = |p: (f64, f64), q: (f64, f64)| (p.0 * q.0 - p.1 * q.1, p.0 * q.1 + p.1 * q.0);
+                                    let re = regs[bits.min(3)].as_ref().and_then(clone_ct);
+                                    let fe = refs[bits.min(3)].clone();
+                                    let z = rc.as_ref().unwrap();
+                                    if op == "dot_ct" {
+                                        let e2 = re.as_ref().unwrap();
+                                        newref = match (va.as_ref(), fb.as_ref(), fc.as_ref(), fe.as_ref()) {
+                                            (Some(a), Some(b), Some(c), Some(e)) => { let v: Vec<(f64, f64)> = (0..a.0.len()).map(|i| { let p = cmul((a.0[i], a.1[i]), (b.0[i], b.1[i])); let q = cmul((c.0[i], c.1[i]), (e.0[i], e.1[i])); (p.0 + q.0, p.1 + q.1) }).collect(); Some((v.iter().map(|t| t.0).collect(), v.iter().map(|t| t.1).collect())) }
+                                            _ => None,
+                                        };
+                                        into!(|dst: &mut CKKSCiphertext<Vec<u8>>| m.ckks_dot_product_ct(dst, &[x, z], &[y.unwrap(), e2], &tskp, sref))
+                                    } else {
+                                        newref = match (va.as_ref(), fb.as_ref(), fc.as_ref()) {
+                                            (Some(a), Some(b), Some(c)) => { let v: Vec<(f64, f64)> = (0..a.0.len()).map(|i| cmul(cmul((a.0[i], a.1[i]), (b.0[i], b.1[i])), (c.0[i], c.1[i]))).collect(); Some((v.iter().map(|t| t.0).collect(), v.iter().map(|t| t.1).collect())) }
+                                            _ => None,
+                                        };
+                                        into!(|dst: &mut CKKSCiphertext<Vec<u8>>| m.ckks_mul_many(dst, &[x, y.unwrap(), z], &tskp, sref))
+                                    }
                                 }
                                 "add_many" => {
                                     let mut ins: Vec<&CKKSCiphertext<Vec<u8>>> = vec![x];
